@@ -480,6 +480,26 @@ def safe(s):
     return re.sub(r'[^A-Za-z0-9_.-]+', '_', s)[:80]
 
 
+# property -> (harness, [(mode, cases, opts)]) used for the gcov reach evidence in the thorough tier
+COV_PLAN = {
+    'C01': ('h_exact', [('c01', 120, dict(max_n=24))]),
+    'C02': ('h_exact', [('c02', 120, dict(max_n=24))]),
+    'C03': ('h_sched', [('c03real', 40, dict(max_n=18, schedules=1))]),
+    'C05': ('h_approx', [('c05', 150, dict(max_n=22))]),
+    'C06': ('h_approx', [('c06', 150, dict(max_n=22))]),
+    'C08': ('h_exact', [('c08', 3, dict(min_n=30, max_n=60, variants_per_xform=1))]),
+    'C09': ('h_exact', [('c09', 100, dict(max_n=20))]),
+    'C10': ('h_dimacs', [('c10', 2000, {})]),
+    'C12': ('h_parts', [('c12', 60, dict(max_n=14))]),
+    'C13': ('h_parts', [('c13', 300, dict(max_n=60))]),
+    'C14': ('h_parts', [('c14', 80, dict(max_n=20))]),
+    'C15': ('h_approx', [('c15', 200, dict(max_n=24))]),
+    'C16': ('h_parts', [('c16', 500, dict(max_n=30))]),
+    'C17': ('h_vec', [('c17', 500, {})]),
+    'C18': ('h_vec', [('c18gcd', 140, {}), ('c18inv', 60, {}), ('c18prime', 5, dict(blocks=4, cpp_blocks=1)), ('c18vec', 300, {})]),
+}
+
+
 class Verdict:
     def __init__(self, prop, tier, seed):
         self.prop = prop; self.tier = tier; self.seed = seed
@@ -514,6 +534,14 @@ class Verdict:
         self.inconclusive += agg.inconclusive
 
     def finish(self, coverage, assumptions, level='exploration', replay_extra=None):
+        if self.tier == 'thorough' and self.prop in COV_PLAN and not os.environ.get('VERIF_NO_COV'):
+            try:
+                h, runs = COV_PLAN[self.prop]
+                hits = anchor_coverage(self.prop, h, runs)
+                coverage = dict(coverage, anchor_hits=hits, anchors_never_executed=[k for k, d in hits.items() if isinstance(d, dict) and d.get('lines_executed') == 0],
+                                anchor_note='gcov (-O0 --coverage build) execution counts of the source ranges named by the property\'s anchors, line numbers mapped from the pinned snapshot to the current tree; a range with zero executed lines means that mechanism was NOT exercised by this harness (inconclusive for it)')
+            except HarnessFailure as e:
+                coverage = dict(coverage, anchor_hits={'error': str(e)[:300]})
         wall = time.time() - self.t0
         nviol = sum(len(v) for v in self.new.values())
         os.makedirs(os.path.join(OUT, 'evidence'), exist_ok=True)
@@ -532,7 +560,7 @@ class Verdict:
             json.dump(ev, f, indent=1, sort_keys=True, default=str)
         for k, (f, n) in self.known.items():
             print('KNOWN-FINDING: property=%s %s (observed %d times in this run)' % (self.prop, f.get('what', k), n))
-        if not self.failures and cov.get('distinct_nontrivial', 0) < 2:
+        if not self.failures and not self.new and cov.get('distinct_nontrivial', 0) < 2:
             self.failures.append('the run observed fewer than 2 distinct non-trivial cases: nothing was decided')
         if self.failures:
             for m in self.failures[:5]:
@@ -566,3 +594,97 @@ def base_coverage(agg, rule, extra=None):
     if extra:
         cov.update(extra)
     return cov
+
+
+# ---------------------------------------------------------------------------------------------
+# reach evidence: gcov execution counts of the source ranges a property is anchored in (thorough tier)
+# ---------------------------------------------------------------------------------------------
+def _anchor_ranges(prop):
+    """[(basename, first, last, label)] parsed from the 'where' fields of the property's anchors (line numbers of the pinned snapshot)"""
+    out = []
+    for l in open(os.path.join(VERIF, 'properties.jsonl')):
+        p = json.loads(l)
+        if p['id'] != prop:
+            continue
+        items = list(p['anchors'].get('mechanism', [])) + list(p['anchors'].get('state', []))
+        for it in items:
+            for m in re.finditer(r'([\w/.-]+\.(?:hpp|cpp)):(\d+)(?:-(\d+))?((?:,\d+(?:-\d+)?)*)', it.get('where', '')):
+                f = os.path.basename(m.group(1))
+                spans = [(int(m.group(2)), int(m.group(3) or m.group(2)))]
+                for extra in re.findall(r',(\d+)(?:-(\d+))?', m.group(4) or ''):
+                    spans.append((int(extra[0]), int(extra[1] or extra[0])))
+                for a, b in spans:
+                    out.append((f, a, b, '%s:%d-%d' % (f, a, b)))
+    return out
+
+
+def _line_map(relpath):
+    """old (pinned snapshot) line number -> current line number, via difflib on the two versions"""
+    import difflib
+    try:
+        base = subprocess.run(['git', '-C', '/repo', 'rev-list', '--max-parents=0', 'HEAD'], stdout=subprocess.PIPE, text=True).stdout.split()[0]
+        old = subprocess.run(['git', '-C', '/repo', 'show', '%s:%s' % (base, relpath)], stdout=subprocess.PIPE, text=True).stdout.splitlines()
+        new = open(os.path.join(REPO, relpath)).read().splitlines()
+    except Exception:
+        return None
+    mp = {}
+    for tag, i1, i2, j1, j2 in difflib.SequenceMatcher(None, old, new, autojunk=False).get_opcodes():
+        if tag == 'equal':
+            for k in range(i2 - i1):
+                mp[i1 + k + 1] = j1 + k + 1
+    return mp
+
+
+def anchor_coverage(prop, harness, runs, flavour='cov'):
+    """runs: list of (mode, ncases, opts).  Returns {label: {lines_with_code, lines_executed, max_count}} for every anchored range."""
+    ranges = _anchor_ranges(prop)
+    if not ranges:
+        return {}
+    b = build(harness, flavour)
+    gcda = b + '.gcda'
+    for f in (gcda,):
+        if os.path.exists(f):
+            os.unlink(f)
+    for mode, n, opts in runs:
+        run_cases(b, mode, 424242, n, opts=opts, nproc=4, timeout=3600, source='cov')
+    if not os.path.exists(gcda):
+        return {'error': 'no coverage data produced'}
+    r = subprocess.run(['gcov', '--json-format', '--stdout', '-o', os.path.dirname(b), b + '.o'], stdout=subprocess.PIPE, stderr=subprocess.DEVNULL, cwd=os.path.dirname(b))
+    counts = {}   # basename -> {line: count}
+    paths = {}
+    for line in r.stdout.decode(errors='replace').splitlines():
+        try:
+            d = json.loads(line)
+        except ValueError:
+            continue
+        for f in d.get('files', []):
+            fn = f.get('file', '')
+            if 'parmcb' not in fn:
+                continue
+            bn = os.path.basename(fn)
+            paths[bn] = fn
+            c = counts.setdefault(bn, {})
+            for ln in f.get('lines', []):
+                c[ln['line_number']] = c.get(ln['line_number'], 0) + ln.get('count', 0)
+    out = {}
+    for bn, a, e, label in ranges:
+        c = counts.get(bn)
+        if c is None:
+            out[label] = dict(lines_with_code=0, lines_executed=0, max_count=0, note='file not instantiated by this harness')
+            continue
+        rel = None
+        fn = paths.get(bn, '')
+        if '/include/' in fn:
+            rel = 'include/' + fn.split('/include/', 1)[1]
+        mp = _line_map(rel) if rel else None
+        lines = []
+        for old in range(a, e + 1):
+            new = mp.get(old) if mp else old
+            if new is not None and new in c:
+                lines.append(c[new])
+        out[label] = dict(lines_with_code=len(lines), lines_executed=len([x for x in lines if x > 0]), max_count=max(lines) if lines else 0)
+    try:
+        os.unlink(gcda)
+    except OSError:
+        pass
+    return out
